@@ -27,10 +27,10 @@ Lemma okstep_trans sc e st2 F F1 F2 c c0 c1 E stL b1 E1 stL1 b2 E2 stL2 st1 :
   okstep sc e st1 F c c0 E stL b1 E1 stL1 F1 -> okstep sc e st2 F1 c0 c1 E1 stL1 b2 E2 stL2 F2 ->
   c <= c0 -> c0 <= c1 -> okstep sc e st2 F c c1 E stL (b1 ++ b2) E2 stL2 F2.
 Proof.
-  intros (Hx1 & Hf1 & Hr1 & Hn1) (Hx2 & Hf2 & Hr2 & Hn2) Ha Hb.
+  intros (Hx1 & Hf1 & Hr1 & Hn1 & Hk1) (Hx2 & Hf2 & Hr2 & Hn2 & Hk2) Ha Hb.
   split; [eapply ExecS_app; eassumption|]. split.
-  - eapply lframe_trans; [eapply lframe_widen; [exact Hf1 | lia | lia] | eapply lframe_widen; [exact Hf2 | lia | lia]].
-  - split; [exact Hr2 | eapply F_new_trans; eassumption].
+  - eapply wframe_trans; [eapply wframe_widen; [exact Hf1 | lia | lia] | eapply wframe_widen; [exact Hf2 | lia | lia]].
+  - split; [exact Hr2 | split; [eapply F_new_trans; eassumption | eapply keep_trans; eassumption]].
 Qed.
 
 (* all pieces stated for the same range *)
@@ -38,17 +38,17 @@ Lemma okstep_trans' sc e st2 F F1 F2 c c' E stL b1 E1 stL1 b2 E2 stL2 st1 :
   okstep sc e st1 F c c' E stL b1 E1 stL1 F1 -> okstep sc e st2 F1 c c' E1 stL1 b2 E2 stL2 F2 ->
   okstep sc e st2 F c c' E stL (b1 ++ b2) E2 stL2 F2.
 Proof.
-  intros (Hx1 & Hf1 & Hr1 & Hi1 & Hn1) (Hx2 & Hf2 & Hr2 & Hi2 & Hn2).
-  split; [eapply ExecS_app; eassumption|]. split; [eapply lframe_trans; eassumption|].
-  split; [exact Hr2|]. split; [eapply incl_tran; eassumption|].
+  intros (Hx1 & Hf1 & Hr1 & (Hi1 & Hn1) & Hk1) (Hx2 & Hf2 & Hr2 & (Hi2 & Hn2) & Hk2).
+  split; [eapply ExecS_app; eassumption|]. split; [eapply wframe_trans; eassumption|].
+  split; [exact Hr2|]. split; [|eapply keep_trans; eassumption]. split; [eapply incl_tran; eassumption|].
   intros t Ht. destruct (Hn2 t Ht) as [H|H]; [apply Hn1; exact H | right; exact H].
 Qed.
 
 Lemma okstep_widen sc e st F F' a b c c' E stL bl E' stL' :
   okstep sc e st F a b E stL bl E' stL' F' -> c <= a -> b <= c' -> okstep sc e st F c c' E stL bl E' stL' F'.
 Proof.
-  intros (Hx & Hf & Hr & Hn) Ha Hb. split; [exact Hx|]. split; [eapply lframe_widen; eassumption|].
-  split; [exact Hr | eapply F_new_widen; eassumption].
+  intros (Hx & Hf & Hr & Hn & Hk) Ha Hb. split; [exact Hx|]. split; [eapply wframe_widen; eassumption|].
+  split; [exact Hr | split; [eapply F_new_widen; eassumption | exact Hk]].
 Qed.
 
 (* a denotation established before a step survives it *)
@@ -56,21 +56,21 @@ Lemma denotes_step sc e st F1 F2 c0 c1 E1 stL1 b E2 stL2 ex sv_ :
   denotes F1 E1 stL1 ex sv_ -> okstep sc e st F1 c0 c1 E1 stL1 b E2 stL2 F2 -> F_out bound F1 c0 c1 ->
   denotes F2 E2 stL2 ex sv_.
 Proof.
-  intros Hd (_ & Hf & _ & Hi & _) Ho. eapply denotes_mono; [exact Hd | eapply fut_lframe; eassumption | exact Hi].
+  intros Hd (_ & Hf & _ & (Hi & _) & _) Ho. eapply denotes_mono; [exact Hd | eapply fut_wframe; eassumption | exact Hi].
 Qed.
 
 Lemma ldenotes_step sc e st F1 F2 c0 c1 E1 stL1 b E2 stL2 ex lv :
   ldenotes F1 E1 stL1 ex lv -> okstep sc e st F1 c0 c1 E1 stL1 b E2 stL2 F2 -> F_out bound F1 c0 c1 ->
   ldenotes F2 E2 stL2 ex lv.
 Proof.
-  intros Hd (_ & Hf & _ & Hi & _) Ho. eapply ldenotes_mono; [exact Hd | eapply fut_lframe; eassumption | exact Hi].
+  intros Hd (_ & Hf & _ & (Hi & _) & _) Ho. eapply ldenotes_mono; [exact Hd | eapply fut_wframe; eassumption | exact Hi].
 Qed.
 
 Lemma ctx_after sc e st l F E stL c c0 c1 l1 b E1 stL1 F1 code bl :
   ctx_ok l F E c c1 -> cshape u l code bl l1 c c0 -> okstep sc e st F c c0 E stL b E1 stL1 F1 ->
   ctx_ok l1 F1 E1 c0 c1.
 Proof.
-  intros Hc (_ & Hle & Hfr & _) (_ & Hf & _ & Hn). eapply ctx_step; eassumption.
+  intros Hc (_ & Hle & Hfr & _) (_ & Hf & _ & Hn & _). eapply ctx_step; eassumption.
 Qed.
 
 Lemma smapM_one {A B} (f : A -> SyltSem.M B) a st :
@@ -84,7 +84,7 @@ Proof. cbn [SyltSem.mapM]. unfold SyltSem.bind. destruct (f a st) as [[y|o|c] st
 
 (* a step in a range disjoint from [a, b) keeps the context of [a, b) *)
 Lemma ctx_disj l F E st a b x y l' F' E' st' :
-  ctx_ok l F E a b -> lut_frame l l' x y -> F_new F F' x y -> lframe x y E st E' st' ->
+  ctx_ok l F E a b -> lut_frame l l' x y -> F_new F F' x y -> wframe bound x y E st E' st' ->
   bound <= x -> (y <= a \/ b <= x) -> ctx_ok l' F' E' a b.
 Proof.
   intros [Hb Hl HF HE] Hfr [_ Hn] Hf Hbx Hd. constructor.
@@ -92,8 +92,9 @@ Proof.
   - intros t Ht. rewrite Hfr by lia. apply Hl. exact Ht.
   - intros t Ht. destruct (Hn t Ht) as [H|H]; [apply HF; exact H | split; lia].
   - intros t Ht. destruct (sget (fmt_var t) E') as [q|] eqn:Hs; [|reflexivity].
-    destruct (lf_new _ _ _ _ _ _ Hf _ _ Hs) as [H'|(t' & Heq & Hr)].
+    destruct (wr_new _ _ _ _ _ _ _ Hf _ _ Hs) as [H'|[(t' & Heq & Hr)|(t' & Heq & Hr)]].
     + rewrite HE in H' by exact Ht. discriminate.
+    + apply fmt_var_inj in Heq. subst. lia.
     + apply fmt_var_inj in Heq. subst. lia.
 Qed.
 
@@ -101,8 +102,8 @@ Lemma cshape_nil' l c c' : c <= c' -> cshape u l [] [] l c c'.
 Proof. intros H. eapply cshape_widen; [apply (cshape_nil u l c) | lia | exact H]. Qed.
 
 Lemma okstep_lframe sc e st F c c' E stL b E' stL' F' :
-  okstep sc e st F c c' E stL b E' stL' F' -> lframe c c' E stL E' stL' /\ F_new F F' c c'.
-Proof. intros (_ & Hf & _ & Hn). split; assumption. Qed.
+  okstep sc e st F c c' E stL b E' stL' F' -> wframe bound c c' E stL E' stL' /\ F_new F F' c c'.
+Proof. intros (_ & Hf & _ & Hn & _). split; assumption. Qed.
 
 Lemma good_stop_dec o : {good_stop o} + {~ good_stop o}.
 Proof. destruct o; cbn; auto. Qed.
@@ -223,21 +224,20 @@ Proof.
         as (b2 & l2 & Hs2 & Hvb1 & Hvb2 & E2 & stL2 & F2 & Hok2 & Hd2). specialize (Hd2 Hcvb).
       destruct (Hmk b2 l2 Hs2) as (Hshape & Hlt2).
       eexists _, _. split; [exact Hshape|]. split; [exact Hlt2|].
-      destruct Hok2 as (Hx2 & Hf2 & Hrel2 & Hi2 & Hn2).
-      assert (Hp2 : sget (fmt_var t) E2 = Some p) by (apply (lf_incl _ _ _ _ _ _ Hf2); exact Hp).
+      destruct Hok2 as (Hx2 & Hf2 & Hrel2 & (Hi2 & Hn2) & Hk2).
+      assert (Hp2 : sget (fmt_var t) E2 = Some p) by (apply (wr_incl _ _ _ _ _ _ _ Hf2); [lia | exact Hp]).
       destruct (step_assign_temp pv bound u sc e st2 F2 c c' E2 stL2 l2 t vb p svb Hrel2 Hbc Ht Hct Hp2 Hlt2 Hd2)
-        as (stL3 & lv & (Hx3 & Hf3 & Hrel3 & _) & Hc3 & Hv3).
-      assert (Hf23 : lframe c c' E stc E2 stL3).
-      { eapply lframe_trans; [eapply lframe_widen; [exact Hf2 | lia | lia] | exact Hf3]. }
+        as (stL3 & lv & (Hx3 & Hf3 & Hrel3 & _ & Hk3) & Hc3 & Hv3).
+      assert (Hf23 : wframe bound c c' E stc E2 stL3).
+      { eapply wframe_trans; [eapply wframe_widen; [exact Hf2 | lia | lia] | exact Hf3]. }
       assert (Hinner : ExecBlock E [] (b2 ++ fst (agen_one u l2 (IAssign t vb))) stc (ROk (E2, SigNormal) stL3)).
       { apply ExecBlock_of_ExecS; [eapply ExecS_app; eassumption | | intros []].
         apply nolabel_app; [apply Hs2 | apply agen_one_nolabel; reflexivity]. }
       exists stL3. split.
       * split; [apply ExecS_one; eapply Exec_if; [exact Hevc | exact Hinner]|].
-        split; [eapply lframe_trans; [exact Hfc | eapply lframe_forget; [exact Hf23 | apply (r_wf _ _ _ _ _ _ _ Hrelc)]]|].
-        split; [|split; [apply incl_tl, incl_refl | intros t' [<-|Ht']; [right; exact Ht | left; exact Ht']]].
-        eapply rel_restrict; [exact Hrel3 | apply (lf_incl _ _ _ _ _ _ Hf23) |].
-        intros w Hw. destruct (r_vars _ _ _ _ _ _ _ Hrel w Hw) as (? & ? & q & _ & _ & Hq & _). congruence.
+        split; [eapply wframe_trans; [apply lframe_w; exact Hfc | eapply wframe_forget; exact Hf23]|].
+        split; [|split; [split; [apply incl_tl, incl_refl | intros t' [<-|Ht']; [right; exact Ht | left; exact Ht']] | apply keep_refl]].
+        eapply (rel_restrict pv bound sc e st e st2 E E2 stc stL3); [exact Hrelc | exact Hrel3 | eapply keep_trans; eassumption | apply (wr_ncell _ _ _ _ _ _ _ Hf23)].
       * eapply denotes_local; [left; reflexivity | exact Hp | rewrite Hc3; exact Hv3].
     + destruct (good_stop_dec o) as [Hg|Hng].
       * destruct (IH g k x2 ctx cb0 code_b vb cb1 e st _ st2 sc l E stc F He2 Hb Hfb Hub Hctx Hrelc Hg)
@@ -257,8 +257,8 @@ Proof.
     eexists _, _. split; [exact Hshape|]. split; [exact Hlt2|].
     exists stc. split.
     + split; [apply ExecS_one; eapply Exec_if; [exact Hevc|]; cbn [truthy]; exists 1%nat; intros [|j] Hj; [lia | reflexivity]|].
-      split; [exact Hfc|]. split; [exact Hrelc|].
-      split; [apply incl_tl, incl_refl | intros t' [<-|Ht']; [right; exact Ht | left; exact Ht']].
+      split; [apply lframe_w; exact Hfc|]. split; [exact Hrelc|].
+      split; [split; [apply incl_tl, incl_refl | intros t' [<-|Ht']; [right; exact Ht | left; exact Ht']] | apply keep_refl].
     + eapply denotes_local; [left; reflexivity | exact Hp | rewrite Hcellc; constructor].
 Qed.
 
@@ -303,7 +303,7 @@ Proof.
     as (E3 & stL3 & F3 & Hokf & Hdf). specialize (Hdf Hcfl).
   set (l1f := snd (aiis u l1 fl (if lit then ETrue else EFalse))) in *.
   pose proof Hokf as (_ & _ & Hrel3 & _). destruct (okstep_lframe _ _ _ _ _ _ _ _ _ _ _ _ Hokf) as (Hff & Hnf).
-  assert (Hp3 : sget (fmt_var t) E3 = Some p) by (apply (lf_incl _ _ _ _ _ _ Hff); exact Hp).
+  assert (Hp3 : sget (fmt_var t) E3 = Some p) by (apply (wr_incl _ _ _ _ _ _ _ Hff); [exact Hbt | exact Hp]).
   assert (Hlt1 : alut_get l1 t = None) by (apply (cx_lut _ _ _ _ _ _ Hctx1); left; lia).
   assert (Hltf : alut_get l1f t = None) by (unfold l1f; rewrite aiis_lut by lia; exact Hlt1).
   (* V<t> = lit *)
@@ -351,8 +351,8 @@ Proof.
       + eapply (cshape_iis u l1f (INot na va) na _ c c'); [lia | reflexivity | reflexivity].
       + eapply okstep_widen; [exact Hokn | lia | lia].
       + eapply (ctx_disj l1f F3 E3 stL4 c0 c1 na (na + 1)); [apply Hctx4; lia | apply aiis_frame; lia | exact Hnn | exact Hfn | lia | lia].
-      + apply (lf_incl _ _ _ _ _ _ Hfn). exact Hp3.
-      + rewrite <- Hc4'. apply (lf_cells _ _ _ _ _ _ Hfn _ _ Hp3). intros (t' & Heq & Hr). apply fmt_var_inj in Heq. subst t'. lia.
+      + apply (wr_incl _ _ _ _ _ _ _ Hfn); [exact Hbt | exact Hp3].
+      + rewrite <- Hc4'. apply (wr_cells _ _ _ _ _ _ _ Hfn t p Hbt); [lia | exact Hp3].
       + rewrite aiis_lut by lia. exact Hltf.
       + exact Hdn.
     - exists E3, stL4, F3, l1f, []. splits.
@@ -615,7 +615,7 @@ Proof.
                 with (((b1 ++ b2) ++ fst (aiis u l2 c1 xe)) ++ fst (agen_one u l3 (IAssert c1))) by (rewrite <- !app_assoc; reflexivity).
               destruct Hok23 as (Hx23 & Hf23 & _ & Hn23).
               split; [eapply ExecS_app; [exact Hx23 | exact Hx4]|]. split; [|split; [exact Hrel4 | exact Hn23]].
-              eapply lframe_trans; [exact Hf23|]. apply lframe_cells_ext; [apply (r_wf _ _ _ _ _ _ _ Hrel3) | apply (r_linv _ _ _ _ _ _ _ Hrel3) | exact Hext].
+              eapply wframe_trans; [exact Hf23|]. apply lframe_w. apply lframe_cells_ext; [apply (r_wf _ _ _ _ _ _ _ Hrel3) | apply (r_linv _ _ _ _ _ _ _ Hrel3) | exact Hext].
            ++ intros _. eapply denotes_mono; [exact Hd3 | apply fut_cells_ext; [apply (r_wf _ _ _ _ _ _ _ Hrel3) | exact Hext] | apply incl_refl].
         -- inversion Hev; subst r st'. clear Hev.
            destruct Hass as (ev & stL4 & Hx4 & Htr).
